@@ -573,3 +573,51 @@ class _fill_adaptive_u:
         t0, t1, c0, c1 = attr(ob, "_times_min"), attr(nb, "_times_min"), attr(ob, "_bin_count"), attr(nb, "_bin_count")
         # growth happens on one side only and ends with the bin that holds the value
         return And(Or(t1 == t0, t1 + c1 == t0 + c0), Implies(t1 < t0, result == 0), Implies(t1 + c1 > t0 + c0, result == c1 - 1))
+
+
+# ---------------------------------------------------------------------------------------------- 2-D fill (C03)
+
+@contract(HNDK + ".fill", props=["C03", "C13"], name=HNDK + ".fill[2-D, any shape]")
+class _fill2d_u:
+    """one point into a 2-D histogram of ANY shape: the reported cell contains the point on both axes (last bins closed), exactly that
+    cell gains the weight (squared error the squared weight), a point outside the bins or in a gap goes to `missed`"""
+    probe = "quantifier-free"
+
+    def configs():
+        return [{"dtype": "int64", "wk": "default"}, {"dtype": "float64", "wk": "float"}]
+
+    def inputs(b):
+        n0, n1 = b.int("n0"), b.int("n1")
+        b.assume(And(n0 >= 1, n1 >= 1))
+        kw = dict(self=hist2d_t(b, "h", n0, n1, b.cfg.dtype), value=b.array("p", (2,)))
+        if b.cfg.wk == "float":
+            w = b.real("w")
+            b.assume(w >= 0)
+            kw["weight"] = w
+        return kw
+
+    def _in(bins, n, k, x):
+        return And(bins[k, 0] <= x, Or(x < bins[k, 1], And(k == n - 1, x == bins[k, 1])))
+
+    @ensures("the_reported_cell_contains_the_point_and_exactly_that_cell_gains_the_weight")
+    def _(a, old, result):
+        bs = [attr(bn, "_bins") for bn in attr(old.self, "_binnings")]
+        F0, F1, E0, E1 = attr(old.self, "_frequencies"), attr(a.self, "_frequencies"), attr(old.self, "_errors2"), attr(a.self, "_errors2")
+        n0, n1 = shape_of(F0)
+        x, y = elems(old.value)
+        w = old.weight if hasattr(old, "weight") else 1
+        m0, m1 = elems(attr(old.self, "_missed")), elems(attr(a.self, "_missed"))
+        if result is None:
+            outside = lambda bins, n, v: forall(0, n, lambda k: Not(_fill2d_u._in(bins, n, k, v)))
+            return And(Or(outside(bs[0], n0, x), outside(bs[1], n1, y)),
+                       forall(0, n0, lambda p: forall(0, n1, lambda q: And(F1[p, q] == F0[p, q], E1[p, q] == E0[p, q]))), m1[0] == m0[0] + w)
+        i, j = result
+        return And(i >= 0, i < n0, j >= 0, j < n1, _fill2d_u._in(bs[0], n0, i, x), _fill2d_u._in(bs[1], n1, j, y),
+                   forall(0, n0, lambda p: forall(0, n1, lambda q: And(F1[p, q] == F0[p, q] + If(And(p == i, q == j), w, 0),
+                                                                      E1[p, q] == E0[p, q] + If(And(p == i, q == j), w * w, 0)))),
+                   m1[0] == m0[0], shape_of(F1)[0] == n0, shape_of(F1)[1] == n1)
+
+    @ensures("dtype_promoted_by_the_weight_and_consistent")
+    def _(a, old, result):
+        want = np.promote_types(attr(old.self, "_dtype"), np.float64 if hasattr(old, "weight") else np.int64)
+        return And(attr(a.self, "_dtype") == want, dtype_of(attr(a.self, "_frequencies")) == want, dtype_of(attr(a.self, "_errors2")) == want)
